@@ -718,6 +718,40 @@ def c13_twice_case(r, seed):
     return ws
 
 
+def c13_bigblock_case(r, seed):
+    """directed shape: the failing hunk replaces a long block (65-160 lines) by another long block without a line in common"""
+    import udiff
+    n = 220
+    body = [b"B%d line\n" % i for i in range(1, n + 1)]
+    a = r.randint(20, 40)
+    k, k2 = r.randint(65, 160), r.randint(65, 160)
+    new_body = body[:a] + [b"        statement_%d();\n" % i for i in range(k2)] + body[a + k:]
+    old_block = [b"    statement_%d();\n" % i for i in range(k)]
+    body = body[:a] + old_block + body[a + k:]
+    hunks = udiff.diff_hunks(body, new_body, 3)
+    if len(hunks) != 1:
+        return None
+    on_disk = list(body)
+    on_disk[a - 2] = b"edited locally\n"     # a context line differs: the hunk can not apply (fuzz 0)
+    name = r.choice(["big.c", "src/big.c"])
+    t0 = {name: (b"".join(on_disk), 0o644)}
+    op = wsgen.Op("modify", name, pre=b"".join(body), post=b"".join(new_body), pre_mode=0o644, post_mode=0o644)
+    op.poison = "hunks"
+    op.hunks = hunks
+    op.failing = [0]
+    pt = wsgen.PatchSpec("p-bigblock.patch", [op], 1, False, False)
+    pt.text = b"--- a/%s\n+++ b/%s\n" % (name.encode(), name.encode()) + b"".join(h.render() for h in hunks)
+    pt.series_line = pt.name
+    pt.prefix_style = "plain"
+    ws = wsgen.Workspace()
+    ws.seed = seed
+    ws.t0 = t0
+    ws.patches = [pt]
+    ws.trees = [t0]
+    ws.fail_at = 0
+    return ws
+
+
 def c13_worker(item):
     seed, binary = item
     r = random.Random(seed * 32452843 + 13)
@@ -741,6 +775,11 @@ def c13_worker(item):
         if dws is not None:
             ws = dws
             res.count("shape:two-failing-file-patches-for-one-file")
+    elif r.random() < 0.03:
+        dws = c13_bigblock_case(r, seed)
+        if dws is not None:
+            ws = dws
+            res.count("shape:failing-hunk-that-replaces-a-long-block")
     threads = r.choice([1, 2, 4, 16])
     verbosity = r.choice(["-q", None])
     args = base_args(threads=threads, backup=r.choice(["never", None, "always"]), verbosity=verbosity) + ["push", "-a"]
@@ -1036,6 +1075,15 @@ def c15_worker(item):
     ws = wsgen.generate(seed, cfg)
     # bystanders: files no patch names
     by = {"bystander/keep.txt": (b"do not touch\n", 0o644), "README.bystander": (b"readme\n", 0o600), "src/bystander.c": (b"int main;\n", 0o755)}
+    # ... and files whose names are related to files the patches do name (editor backups, lock files): never a temporary name
+    # the tool may use
+    named0 = set(q for p_ in ws.patches for o in p_.ops for q in (o.path, o.new_path))
+    for q in sorted(named0)[:4]:
+        d, b = os.path.split(q)
+        for rel in (b + "~", b + ".bak", "#" + b + "#", "." + b + ".swp", b + ".tmp"):
+            nm = os.path.join(d, rel)
+            if nm not in named0 and not any(nm in t for t in ws.trees) and r.random() < 0.5 and (not d or any(os.path.dirname(x) == d for x in ws.trees[0])):
+                by[nm] = (b"related bystander of %s\n" % b.encode("utf-8", "surrogateescape"), r.choice([0o644, 0o600]))
     for t in ws.trees:
         for p, v in by.items():
             t[p] = v
@@ -1551,7 +1599,7 @@ def c16_options_case(r, seed, binary, res):
                 res["sample"] = {"series_file": lines, "args": args, "exit": rr.rc, "patches": [q.describe() if hasattr(q, "describe") else None for q in []] or ws.describe()["patches"][:3]}
 
 
-STATES = ["E", "C", "D", "A"]
+STATES = ["E", "C", "D", "A", "T", "Z"]   # exists / created by p1 / deleted by p1 / absent / emptied by p1 (exists, zero length) / zero length from the start
 
 
 def c16_names_case(r, seed, binary, res, so=None, sn=None, only_workspace=False):
@@ -1578,6 +1626,16 @@ def c16_names_case(r, seed, binary, res, so=None, sn=None, only_workspace=False)
             op.style = "devnull"
             ops1.append(op)
             tree1.pop(name, None)
+        elif st == "T":
+            t0[name] = (content, 0o644)
+            op = wsgen.Op("truncate", name, pre=content, post=b"", pre_mode=0o644, post_mode=0o644)
+            op.style = "samename"
+            op.ctx = 0
+            ops1.append(op)
+            tree1[name] = (b"", 0o644)
+        elif st == "Z":
+            t0[name] = (b"", 0o644)
+            tree1[name] = (b"", 0o644)
 
     setup(old, so)
     setup(new, sn)
@@ -1590,16 +1648,27 @@ def c16_names_case(r, seed, binary, res, so=None, sn=None, only_workspace=False)
     pre_a = wsgen._prefix(strip, "a")
     pre_b = wsgen._prefix(strip, "b")
     ts = b"\t2020-01-01 00:00:00.000000000 +0000" if r.random() < 0.3 else b""
-    text = b"--- " + (pre_a + old).encode() + ts + b"\n+++ " + (pre_b + new).encode() + ts + b"\n@@ -1,3 +1,3 @@\n l1\n-l2\n+L2\n l3\n"
+    # the second patch either modifies (needs the content) or has a creation-shaped hunk with two real names (fits a missing
+    # file and an existing zero-length one)
+    creating = so in ("T", "Z") or sn in ("T", "Z") or r.random() < 0.25
+    if creating:
+        body = b"@@ -0,0 +1,2 @@\n+fresh\n+note\n"
+    else:
+        body = b"@@ -1,3 +1,3 @@\n l1\n-l2\n+L2\n l3\n"
+    text = b"--- " + (pre_a + old).encode() + ts + b"\n+++ " + (pre_b + new).encode() + ts + b"\n" + body
     p2 = wsgen.PatchSpec("p2-names.patch", [], strip, False, False)
     p2.text = text
     p2.series_line = "p2-names.patch" + ("" if strip == 1 else " -p%d" % strip)
-    old_exists = so in ("E", "C")
+    old_exists = so in ("E", "C", "T", "Z")       # a zero-length file exists
     target = old if old_exists else new
-    target_exists = (so if old_exists else sn) in ("E", "C")
+    tstate = so if old_exists else sn
+    if creating:
+        target_exists = tstate not in ("E", "C")     # "the patch applies": onto nothing or onto an empty file
+    else:
+        target_exists = tstate in ("E", "C")
     tree2 = dict(tree1)
     if target_exists:
-        tree2[target] = (b"l1\nL2\nl3\n", 0o644)
+        tree2[target] = (b"fresh\nnote\n" if creating else b"l1\nL2\nl3\n", 0o644)
     ws = wsgen.Workspace()
     ws.t0 = t0
     ws.patches = [p1, p2]
@@ -1744,6 +1813,10 @@ def c17_worker(item):
                 if not names:
                     return res
                 goal = [names[0][:-1]]
+            if how != "number-too-big-to-parse" and r.random() < 0.3:
+                # the goal together with -a (the argument decides, -a does not make a bad goal acceptable)
+                goal = (["-a"] + goal) if r.random() < 0.5 else (goal + ["-a"])
+                res.count("goal-cases-with--a-as-well")
             what = "goal:" + how
         elif kind == "badpatch":
             how = r.choice(["missing", "is-a-directory", "truncated-hunk", "bad-header", "binary", "missing-filename"])
